@@ -307,7 +307,7 @@ SUBCHECKS = [
                   "credit} x d in 1..3 (copula models for d>=2) x model parameters x h x 0..3(4) refinements; "
                   "invariants after construction and after every refine(); non-trivial = >=1 refinement or "
                   "non-uniform constructor or d>=2",
-             strategy=strat_case, budget={"quick": 320, "thorough": 6000},
+             strategy=strat_case, budget={"quick": 960, "thorough": 6000},
              shards={"quick": 16, "thorough": 16},
              essential_labels=("probstep", "credit", "d=3", "refines=2")),
 ]
